@@ -300,9 +300,10 @@ Qed.
 Lemma facts_ok_inv F : facts_ok F = true ->
   sniff_chain_ok F = true /\ ext_chain_ok F = true /\ cont_chain_ok F = true /\ containers_vs_codecs_ok F = true
   /\ adapters_ok F = true /\ f_writer_passthrough F = true /\ f_path_fallback_sniffs F = true
-  /\ f_stdin_fallback_sniffs F = true /\ f_private_codec_state F = true /\ header_ok F = true /\ flag_deps_ok F = true.
+  /\ f_stdin_fallback_sniffs F = true /\ f_private_codec_state F = true /\ header_ok F = true /\ flag_deps_ok F = true
+  /\ f_position_preserved F = true.
 Proof.
-  unfold facts_ok. intros H. do 10 (apply andb_prop in H; destruct H as [H ?H]). repeat split; assumption.
+  unfold facts_ok. intros H. do 11 (apply andb_prop in H; destruct H as [H ?H]). repeat split; assumption.
 Qed.
 
 Lemma sniff_chain_ok_inv F : sniff_chain_ok F = true ->
@@ -453,7 +454,7 @@ Qed.
 Lemma header_exact d :
   stream_header_ok F d = ends_with (f_rs_magic F) (firstn (List.length (f_header_frame F)) d).
 Proof.
-  destruct (facts_ok_inv F HF) as (_ & _ & _ & _ & _ & _ & _ & _ & _ & Hh & _). unfold header_ok in Hh.
+  destruct (facts_ok_inv F HF) as (_ & _ & _ & _ & _ & _ & _ & _ & _ & Hh & _ & _). unfold header_ok in Hh.
   apply andb_prop in Hh. destruct Hh as [H1 H2]. apply Nat.eqb_eq in H1.
   unfold stream_header_ok. rewrite H1. destruct (f_header_test F) as [m|m]; [|discriminate].
   apply beqb_eq in H2. subst m. reflexivity.
